@@ -55,8 +55,8 @@ for p in props:
     pid = p['id']
     if pid in BUILT:
         eng, text, note, tech, ref = CHECKS[pid]
-        checks.append({'property_id': pid, 'quick_cmd': f'./vcheck {pid} --tier quick', 'thorough_cmd': f'./vcheck {pid} --tier thorough',
-                       'evidence_file': f'/verif/evidence/{pid}.json', 'engine': eng, 'replay_cmd_template': './vcheck replay {path}',
+        checks.append({'property_id': pid, 'quick_cmd': f'/verif/vcheck {pid} --tier quick', 'thorough_cmd': f'/verif/vcheck {pid} --tier thorough',
+                       'evidence_file': f'/verif/evidence/{pid}.json', 'engine': eng, 'replay_cmd_template': '/verif/vcheck replay {path}',
                        'level_claimed': {'category': 'model_checking', 'text': text, 'design_ref': 'DESIGN.md ' + ref}, 'level_note': note, 'technique': tech})
     else:
         na.append({'property_id': pid, 'reason': 'check designed (DESIGN.md section 4) but its engine is not registered yet in this round'})
